@@ -121,10 +121,48 @@ Section Generic.
         if s_clean s then respond cfg (s_bytes s) status resp
         else fail 499 true   (* the client went away while the proxy was streaming its body *)
     end.
+
+  (** *** histories: generations of the configuration and a pool memoryCache
+      [g_cmax] > 0: the pool has a memoryCache (GET, code 200) with that maxEntryBytes.
+      A generation change that touches the pipeline (pool / proxy limit, cache spec) creates
+      new pools with EMPTY caches (Proxy.Inherit -> reload -> NewServerPool); a change of
+      the server / path limits only reloads the mux.  A hit is served by
+      buildResponseFromCache without FetchPayload; an answer is stored only after it passed
+      FetchPayload of the generation that fetched it. *)
+  Definition pipe_same (a b : config * Z) : bool :=
+    (c_pool (fst a) =? c_pool (fst b)) && (c_proxy (fst a) =? c_proxy (fst b)) && (snd a =? snd b).
+
+  Definition hit (ent : Z * B) : outcome B :=
+    {| o_status := fst ent; o_body := snd ent; o_frame_ok := true; o_dispatched := true; o_backend := None |}.
+
+  Definition hstep (g : config * Z) (st : option (Z * B)) (get : bool)
+             (req : wire B) (status : Z) (resp : wire B) : outcome B * option (Z * B) :=
+    let base := serve (fst g) req status resp in
+    let cache_on := 0 <? snd g in
+    match st with
+    | Some ent =>
+        if o_dispatched base && get && cache_on then (hit ent, st) else (base, st)
+    | None =>
+        let seff := norm_limit (effective (c_pool (fst g)) (c_proxy (fst g))) in
+        let stored := get && cache_on && o_dispatched base && (status =? 200) && (o_status base =? 200) &&
+                      (0 <=? seff) && (blen (o_body base) <=? snd g) &&
+                      match o_backend base with Some _ => true | None => false end in
+        (base, if stored then Some (o_status base, o_body base) else None)
+    end.
+
+  Fixpoint hrun (prev : option (config * Z)) (st : option (Z * B))
+           (l : list ((config * Z) * bool * wire B * Z * wire B)) : list (outcome B) :=
+    match l with
+    | [] => []
+    | (g, get, req, status, resp) :: t =>
+        let st0 := match prev with Some p => if pipe_same p g then st else None | None => None end in
+        let '(o, st1) := hstep g st0 get req status resp in
+        o :: hrun (Some g) st1 t
+    end.
 End Generic.
 
 Arguments fetch_payload {B}. Arguments src_of_wire {B}. Arguments respond {B}.
-Arguments serve {B}. Arguments fail {B}.
+Arguments serve {B}. Arguments fail {B}. Arguments hstep {B}. Arguments hrun {B}. Arguments hit {B}.
 
 (** instances *)
 Definition zlen {A} (l : list A) : Z := Z.of_nat (List.length l).
